@@ -280,3 +280,7 @@ Definition jp_report (lang : Z) (ys pe : bool) (i : rinput) : result (list sheet
       if existsb (em_raises lang (rp_exchanges i)) ems then Err EValue                 (* ezodf: invalid value: None *)
       else Ok (report_of lang (rp_exchanges i) ems)
   end.
+
+(** the text of a cross-sheet reference  ='<name>'.<L><row1>  (row1 counted from 1, as spreadsheets do) *)
+Definition sheet_ref (name : str) (col_letter : Z) (row1 : Z) : payload :=
+  PFormula (61 :: 39 :: name ++ 39 :: 46 :: col_letter :: str_of_Z row1).
